@@ -179,6 +179,49 @@ Definition gc_holds_b (i : gc_in) (deleted : list string) : bool :=
   | _, _ => match deleted with [] => true | _ => false end
   end.
 
+(* ---- the two snapshot reads of one GC pass over a cluster that keeps changing ----
+   The NodeClaim list and the provider list are two reads at two instants; other actors
+   (a launch that registers, an instance that terminates, ...) make progress in between.
+   A trace gives the true cluster state at every instant. *)
+Record gworld := mkGWorld { w_claims : list gclaim; w_insts : list ginst }.
+
+(* one pass whose NodeClaim list is served at instant [ti] and whose provider list at [tj] *)
+Definition gc_pass (tr : nat -> gworld) (ti tj : nat) (nodes : list gnode) (nf : list string) : list string * res :=
+  gc (mkGc (Some (w_claims (tr ti))) (Some (w_insts (tr tj))) nodes nf).
+
+(* the two-instant timeline of a pass: state at the first read, state at the second read *)
+Definition tl2 (w0 w1 : gworld) (t : nat) : gworld := match t with O => w0 | S _ => w1 end.
+
+(* the code: ListManaged first, cloudProvider.List second *)
+Definition gc2 (w0 w1 : gworld) nodes nf := gc_pass (tl2 w0 w1) 0 1 nodes nf.
+(* the opposite order (provider snapshot older than the NodeClaim snapshot) *)
+Definition gc2_swapped (w0 w1 : gworld) nodes nf := gc_pass (tl2 w0 w1) 1 0 nodes nf.
+
+Inductive gorder := ClaimsFirst | ProviderFirst.
+Definition gorder_eqb (a b : gorder) : bool :=
+  match a, b with ClaimsFirst, ClaimsFirst | ProviderFirst, ProviderFirst => true | _, _ => false end.
+(* the instant at which the NodeClaims were observed *)
+Definition obs_instant (o : gorder) : nat := match o with ClaimsFirst => O | ProviderFirst => 1%nat end.
+
+(* oracle for a pass with an observed read order: every deleted name is a claim that was observed
+   Registered, whose instance was not listed live at some instant at or after that observation,
+   and whose Node lookup allowed the deletion *)
+Definition absent_after_b (o : gorder) (w0 w1 : gworld) (pid : string) : bool :=
+  match o with
+  | ClaimsFirst => negb (mem pid (live_ids (w_insts w0))) || negb (mem pid (live_ids (w_insts w1)))
+  | ProviderFirst => negb (mem pid (live_ids (w_insts w1)))
+  end.
+
+Definition gc2_holds_b (o : gorder) (w0 w1 : gworld) (nodes : list gnode) (nf : list string) (deleted : list string) : bool :=
+  let i := mkGc None None nodes nf in
+  forallb (fun name =>
+    existsb (fun c => String.eqb (gc_name c) name && gc_registered c && absent_after_b o w0 w1 (gc_pid c) &&
+                      match node_lookup i (gc_pid c) with
+                      | NotFound | Found false | Duplicate => true
+                      | Found true | Failed => false
+                      end)
+            (w_claims (tl2 w0 w1 (obs_instant o)))) deleted.
+
 (* ------------------------------------------------------------------ liveness *)
 
 Inductive cstat := CTrue | CFalse | CUnknown.
